@@ -57,48 +57,51 @@ func (a *mapi) withDefined(f func(int64) bool) *mapi {
 	return a
 }
 
+// weightsBound is set by c20_weights_test.go (absent under the build tag noweights).
+var weightsBound bool
+
 var apis = []*mapi{
 	// ---- v3 base: IsUnknown() is true for the unknown value
-	api(3, "AV", m3.GetAttackVector, m3.AttackVector.String, func(v m3.AttackVector) bool { return !v.IsUnknown() }).withValue(func(v int64, _ wctx) float64 { return m3.AttackVector(v).Value() }),
-	api(3, "AC", m3.GetAttackComplexity, m3.AttackComplexity.String, func(v m3.AttackComplexity) bool { return !v.IsUnknown() }).withValue(func(v int64, _ wctx) float64 { return m3.AttackComplexity(v).Value() }),
-	api(3, "PR", m3.GetPrivilegesRequired, m3.PrivilegesRequired.String, func(v m3.PrivilegesRequired) bool { return !v.IsUnknown() }).withValue(func(v int64, c wctx) float64 { return m3.PrivilegesRequired(v).Value(c.S) }),
-	api(3, "UI", m3.GetUserInteraction, m3.UserInteraction.String, func(v m3.UserInteraction) bool { return !v.IsUnknown() }).withValue(func(v int64, _ wctx) float64 { return m3.UserInteraction(v).Value() }),
+	api(3, "AV", m3.GetAttackVector, m3.AttackVector.String, func(v m3.AttackVector) bool { return !v.IsUnknown() }),
+	api(3, "AC", m3.GetAttackComplexity, m3.AttackComplexity.String, func(v m3.AttackComplexity) bool { return !v.IsUnknown() }),
+	api(3, "PR", m3.GetPrivilegesRequired, m3.PrivilegesRequired.String, func(v m3.PrivilegesRequired) bool { return !v.IsUnknown() }),
+	api(3, "UI", m3.GetUserInteraction, m3.UserInteraction.String, func(v m3.UserInteraction) bool { return !v.IsUnknown() }),
 	api(3, "S", m3.GetScope, m3.Scope.String, func(v m3.Scope) bool { return !v.IsUnknown() }),
-	api(3, "C", m3.GetConfidentialityImpact, m3.ConfidentialityImpact.String, func(v m3.ConfidentialityImpact) bool { return !v.IsUnknown() }).withValue(func(v int64, _ wctx) float64 { return m3.ConfidentialityImpact(v).Value() }),
-	api(3, "I", m3.GetIntegrityImpact, m3.IntegrityImpact.String, func(v m3.IntegrityImpact) bool { return !v.IsUnknown() }).withValue(func(v int64, _ wctx) float64 { return m3.IntegrityImpact(v).Value() }),
-	api(3, "A", m3.GetAvailabilityImpact, m3.AvailabilityImpact.String, func(v m3.AvailabilityImpact) bool { return !v.IsUnknown() }).withValue(func(v int64, _ wctx) float64 { return m3.AvailabilityImpact(v).Value() }),
+	api(3, "C", m3.GetConfidentialityImpact, m3.ConfidentialityImpact.String, func(v m3.ConfidentialityImpact) bool { return !v.IsUnknown() }),
+	api(3, "I", m3.GetIntegrityImpact, m3.IntegrityImpact.String, func(v m3.IntegrityImpact) bool { return !v.IsUnknown() }),
+	api(3, "A", m3.GetAvailabilityImpact, m3.AvailabilityImpact.String, func(v m3.AvailabilityImpact) bool { return !v.IsUnknown() }),
 	// ---- v3 temporal / environmental: IsValid()
-	api(3, "E", m3.GetExploitability, m3.Exploitability.String, m3.Exploitability.IsValid).withValue(func(v int64, _ wctx) float64 { return m3.Exploitability(v).Value() }),
-	api(3, "RL", m3.GetRemediationLevel, m3.RemediationLevel.String, m3.RemediationLevel.IsValid).withValue(func(v int64, _ wctx) float64 { return m3.RemediationLevel(v).Value() }),
-	api(3, "RC", m3.GetReportConfidence, m3.ReportConfidence.String, m3.ReportConfidence.IsValid).withValue(func(v int64, _ wctx) float64 { return m3.ReportConfidence(v).Value() }),
-	api(3, "CR", m3.GetConfidentialityRequirement, m3.ConfidentialityRequirement.String, m3.ConfidentialityRequirement.IsValid).withValue(func(v int64, _ wctx) float64 { return m3.ConfidentialityRequirement(v).Value() }),
-	api(3, "IR", m3.GetIntegrityRequirement, m3.IntegrityRequirement.String, m3.IntegrityRequirement.IsValid).withValue(func(v int64, _ wctx) float64 { return m3.IntegrityRequirement(v).Value() }),
-	api(3, "AR", m3.GetAvailabilityRequirement, m3.AvailabilityRequirement.String, m3.AvailabilityRequirement.IsValid).withValue(func(v int64, _ wctx) float64 { return m3.AvailabilityRequirement(v).Value() }),
-	api(3, "MAV", m3.GetModifiedAttackVector, m3.ModifiedAttackVector.String, m3.ModifiedAttackVector.IsValid).withValue(func(v int64, c wctx) float64 { return m3.ModifiedAttackVector(v).Value(c.AV) }),
-	api(3, "MAC", m3.GetModifiedAttackComplexity, m3.ModifiedAttackComplexity.String, m3.ModifiedAttackComplexity.IsValid).withValue(func(v int64, c wctx) float64 { return m3.ModifiedAttackComplexity(v).Value(c.AC) }),
-	api(3, "MPR", m3.GetModifiedPrivilegesRequired, m3.ModifiedPrivilegesRequired.String, m3.ModifiedPrivilegesRequired.IsValid).withValue(func(v int64, c wctx) float64 { return m3.ModifiedPrivilegesRequired(v).Value(c.MS, c.S, c.PR) }),
-	api(3, "MUI", m3.GetModifiedUserInteraction, m3.ModifiedUserInteraction.String, m3.ModifiedUserInteraction.IsValid).withValue(func(v int64, c wctx) float64 { return m3.ModifiedUserInteraction(v).Value(c.UI) }),
+	api(3, "E", m3.GetExploitability, m3.Exploitability.String, m3.Exploitability.IsValid),
+	api(3, "RL", m3.GetRemediationLevel, m3.RemediationLevel.String, m3.RemediationLevel.IsValid),
+	api(3, "RC", m3.GetReportConfidence, m3.ReportConfidence.String, m3.ReportConfidence.IsValid),
+	api(3, "CR", m3.GetConfidentialityRequirement, m3.ConfidentialityRequirement.String, m3.ConfidentialityRequirement.IsValid),
+	api(3, "IR", m3.GetIntegrityRequirement, m3.IntegrityRequirement.String, m3.IntegrityRequirement.IsValid),
+	api(3, "AR", m3.GetAvailabilityRequirement, m3.AvailabilityRequirement.String, m3.AvailabilityRequirement.IsValid),
+	api(3, "MAV", m3.GetModifiedAttackVector, m3.ModifiedAttackVector.String, m3.ModifiedAttackVector.IsValid),
+	api(3, "MAC", m3.GetModifiedAttackComplexity, m3.ModifiedAttackComplexity.String, m3.ModifiedAttackComplexity.IsValid),
+	api(3, "MPR", m3.GetModifiedPrivilegesRequired, m3.ModifiedPrivilegesRequired.String, m3.ModifiedPrivilegesRequired.IsValid),
+	api(3, "MUI", m3.GetModifiedUserInteraction, m3.ModifiedUserInteraction.String, m3.ModifiedUserInteraction.IsValid),
 	api(3, "MS", m3.GetModifiedScope, m3.ModifiedScope.String, m3.ModifiedScope.IsValid),
-	api(3, "MC", m3.GetModifiedConfidentialityImpact, m3.ModifiedConfidentialityImpact.String, m3.ModifiedConfidentialityImpact.IsValid).withValue(func(v int64, c wctx) float64 { return m3.ModifiedConfidentialityImpact(v).Value(c.C) }),
-	api(3, "MI", m3.GetModifiedIntegrityImpact, m3.ModifiedIntegrityImpact.String, m3.ModifiedIntegrityImpact.IsValid).withValue(func(v int64, c wctx) float64 { return m3.ModifiedIntegrityImpact(v).Value(c.I) }),
-	api(3, "MA", m3.GetModifiedAvailabilityImpact, m3.ModifiedAvailabilityImpact.String, m3.ModifiedAvailabilityImpact.IsValid).withValue(func(v int64, c wctx) float64 { return m3.ModifiedAvailabilityImpact(v).Value(c.A) }),
+	api(3, "MC", m3.GetModifiedConfidentialityImpact, m3.ModifiedConfidentialityImpact.String, m3.ModifiedConfidentialityImpact.IsValid),
+	api(3, "MI", m3.GetModifiedIntegrityImpact, m3.ModifiedIntegrityImpact.String, m3.ModifiedIntegrityImpact.IsValid),
+	api(3, "MA", m3.GetModifiedAvailabilityImpact, m3.ModifiedAvailabilityImpact.String, m3.ModifiedAvailabilityImpact.IsValid),
 	// ---- v2 base: IsUnknown() is *false* for the unknown value (negated naming); only
 	// separation is required
-	api(2, "AV", m2.GetAccessVector, m2.AccessVector.String, m2.AccessVector.IsUnknown).withValue(func(v int64, _ wctx) float64 { return m2.AccessVector(v).Value() }),
-	api(2, "AC", m2.GetAccessComplexity, m2.AccessComplexity.String, m2.AccessComplexity.IsUnknown).withValue(func(v int64, _ wctx) float64 { return m2.AccessComplexity(v).Value() }),
-	api(2, "Au", m2.GetAuthentication, m2.Authentication.String, m2.Authentication.IsUnknown).withValue(func(v int64, _ wctx) float64 { return m2.Authentication(v).Value() }),
-	api(2, "C", m2.GetConfidentialityImpact, m2.ConfidentialityImpact.String, m2.ConfidentialityImpact.IsUnknown).withValue(func(v int64, _ wctx) float64 { return m2.ConfidentialityImpact(v).Value() }),
-	api(2, "I", m2.GetIntegrityImpact, m2.IntegrityImpact.String, m2.IntegrityImpact.IsUnknown).withValue(func(v int64, _ wctx) float64 { return m2.IntegrityImpact(v).Value() }),
-	api(2, "A", m2.GetAvailabilityImpact, m2.AvailabilityImpact.String, m2.AvailabilityImpact.IsUnknown).withValue(func(v int64, _ wctx) float64 { return m2.AvailabilityImpact(v).Value() }),
+	api(2, "AV", m2.GetAccessVector, m2.AccessVector.String, m2.AccessVector.IsUnknown),
+	api(2, "AC", m2.GetAccessComplexity, m2.AccessComplexity.String, m2.AccessComplexity.IsUnknown),
+	api(2, "Au", m2.GetAuthentication, m2.Authentication.String, m2.Authentication.IsUnknown),
+	api(2, "C", m2.GetConfidentialityImpact, m2.ConfidentialityImpact.String, m2.ConfidentialityImpact.IsUnknown),
+	api(2, "I", m2.GetIntegrityImpact, m2.IntegrityImpact.String, m2.IntegrityImpact.IsUnknown),
+	api(2, "A", m2.GetAvailabilityImpact, m2.AvailabilityImpact.String, m2.AvailabilityImpact.IsUnknown),
 	// ---- v2 temporal / environmental: IsValid(), IsDefined()
-	api(2, "E", m2.GetExploitability, m2.Exploitability.String, m2.Exploitability.IsValid).withValue(func(v int64, _ wctx) float64 { return m2.Exploitability(v).Value() }).withDefined(func(v int64) bool { return m2.Exploitability(v).IsDefined() }),
-	api(2, "RL", m2.GetRemediationLevel, m2.RemediationLevel.String, m2.RemediationLevel.IsValid).withValue(func(v int64, _ wctx) float64 { return m2.RemediationLevel(v).Value() }).withDefined(func(v int64) bool { return m2.RemediationLevel(v).IsDefined() }),
-	api(2, "RC", m2.GetReportConfidence, m2.ReportConfidence.String, m2.ReportConfidence.IsValid).withValue(func(v int64, _ wctx) float64 { return m2.ReportConfidence(v).Value() }).withDefined(func(v int64) bool { return m2.ReportConfidence(v).IsDefined() }),
-	api(2, "CDP", m2.GetCollateralDamagePotential, m2.CollateralDamagePotential.String, m2.CollateralDamagePotential.IsValid).withValue(func(v int64, _ wctx) float64 { return m2.CollateralDamagePotential(v).Value() }).withDefined(func(v int64) bool { return m2.CollateralDamagePotential(v).IsDefined() }),
-	api(2, "TD", m2.GetTargetDistribution, m2.TargetDistribution.String, m2.TargetDistribution.IsValid).withValue(func(v int64, _ wctx) float64 { return m2.TargetDistribution(v).Value() }).withDefined(func(v int64) bool { return m2.TargetDistribution(v).IsDefined() }),
-	api(2, "CR", m2.GetConfidentialityRequirement, m2.ConfidentialityRequirement.String, m2.ConfidentialityRequirement.IsValid).withValue(func(v int64, _ wctx) float64 { return m2.ConfidentialityRequirement(v).Value() }).withDefined(func(v int64) bool { return m2.ConfidentialityRequirement(v).IsDefined() }),
-	api(2, "IR", m2.GetIntegrityRequirement, m2.IntegrityRequirement.String, m2.IntegrityRequirement.IsValid).withValue(func(v int64, _ wctx) float64 { return m2.IntegrityRequirement(v).Value() }).withDefined(func(v int64) bool { return m2.IntegrityRequirement(v).IsDefined() }),
-	api(2, "AR", m2.GetAvailabilityRequirement, m2.AvailabilityRequirement.String, m2.AvailabilityRequirement.IsValid).withValue(func(v int64, _ wctx) float64 { return m2.AvailabilityRequirement(v).Value() }).withDefined(func(v int64) bool { return m2.AvailabilityRequirement(v).IsDefined() }),
+	api(2, "E", m2.GetExploitability, m2.Exploitability.String, m2.Exploitability.IsValid).withDefined(func(v int64) bool { return m2.Exploitability(v).IsDefined() }),
+	api(2, "RL", m2.GetRemediationLevel, m2.RemediationLevel.String, m2.RemediationLevel.IsValid).withDefined(func(v int64) bool { return m2.RemediationLevel(v).IsDefined() }),
+	api(2, "RC", m2.GetReportConfidence, m2.ReportConfidence.String, m2.ReportConfidence.IsValid).withDefined(func(v int64) bool { return m2.ReportConfidence(v).IsDefined() }),
+	api(2, "CDP", m2.GetCollateralDamagePotential, m2.CollateralDamagePotential.String, m2.CollateralDamagePotential.IsValid).withDefined(func(v int64) bool { return m2.CollateralDamagePotential(v).IsDefined() }),
+	api(2, "TD", m2.GetTargetDistribution, m2.TargetDistribution.String, m2.TargetDistribution.IsValid).withDefined(func(v int64) bool { return m2.TargetDistribution(v).IsDefined() }),
+	api(2, "CR", m2.GetConfidentialityRequirement, m2.ConfidentialityRequirement.String, m2.ConfidentialityRequirement.IsValid).withDefined(func(v int64) bool { return m2.ConfidentialityRequirement(v).IsDefined() }),
+	api(2, "IR", m2.GetIntegrityRequirement, m2.IntegrityRequirement.String, m2.IntegrityRequirement.IsValid).withDefined(func(v int64) bool { return m2.IntegrityRequirement(v).IsDefined() }),
+	api(2, "AR", m2.GetAvailabilityRequirement, m2.AvailabilityRequirement.String, m2.AvailabilityRequirement.IsValid).withDefined(func(v int64) bool { return m2.AvailabilityRequirement(v).IsDefined() }),
 }
 
 func apiOf(ver int, name string) *mapi {
@@ -456,6 +459,9 @@ func TestC20(t *testing.T) {
 	defer c.end()
 	c.rec.F.Rule = "tables (complete): for all 22 v3 and 14 v2 metrics every code, its exported constant, printing, the validity predicates, every weight (PR per scope; every Modified metric at every own value x every base value; MPR over all 3 x 2 x 4 x 3 combinations of MS, S, MPR, PR) every integer in [-8, max+8] and integers aliasing a defined value under 8/16/32-bit truncation or carrying a second small number above it at any shift from 2 to 40 (no panic, print empty, same weight as the unknown value in every context; defined values under out-of-range contexts likewise); an ASCII character next to every two-byte rune in both orders (thorough: every valid UTF-8 string of at most 3 bytes) at every parser; long strings that start with a valid code (NUL / letter / blank fill at lengths 7..17, 255..257, 256+len, 512+len, 65536+len); code lists: two or three codes of the metric joined by one of 21 separators, a code next to a separator, the whole list; codes: every string of length <= 3 over a 28-character alphabet (all code letters, lower case, digits, dash, space, tab) at every metric's parser plus rapid arbitrary strings; version: every byte string of length <= 3 as label at the prefix parser (behind CVSS:) and at the legacy v3/version parser (complete; thorough also 4-byte labels over a 24-byte alphabet), plus label parser/printer pairs on generated labels and integers. Non-trivial = a string that is not a valid code of the metric (must parse to unknown), or a dependent-weight table; distinct by hash of (version, metric, string)."
 	c.rec.F.Assumptions = []string{"weights compared with ==: both sides are the nearest double of the same decimal literal", "for the v2 base metrics only separation by IsUnknown is required (its sense is the negation of its name)"}
+	if !weightsBound {
+		t.Fatalf("INCONCLUSIVE: the weight accessors (Value methods) of the tree under test do not have the signatures this check binds; the weight tables cannot be decided")
+	}
 	nviol := 0
 	if shard == 0 {
 		for _, a := range apis {
